@@ -55,6 +55,11 @@ func (fr *Frame) siteAsserts(st *State, c *ssa.CallCommon, in ssa.Instruction, a
 		if label == "" {
 			label = fmt.Sprintf("L%d", cl.Line)
 		}
+		if cl.Kind == "assume" {
+			fr.ex.assume(st, goal)
+			fr.ex.trustedUsed["assumed at "+fr.key()+" before "+ord+": "+cl.Text] = true
+			continue
+		}
 		fr.ex.addOblig(&Obligation{Name: fmt.Sprintf("%s/assert@%s:%s", fr.key(), ord, label), Kind: "assert", Fn: fr.key(), Goal: goal, PC: st.pc,
 			Pos: fr.ex.W.prog.Fset.Position(in.Pos()).String(), Clause: cl})
 	}
@@ -523,6 +528,11 @@ func (ex *Exec) lenOf(st *State, x *Term, t types.Type) *Term {
 	f := ex.f
 	switch u := types.Unalias(t).Underlying().(type) {
 	case *types.Slice:
+		if x.sort != Sort("Slice") {
+			r := f.App("coins.len_", SInt, x)
+			ex.assume(st, f.Ge(r, f.Int(0)))
+			return r
+		}
 		return f.Acc("Slice", "len", x)
 	case *types.Basic:
 		return ex.tm.StrLen(x)
@@ -547,6 +557,10 @@ func (fr *Frame) appendOp(st *State, c *ssa.CallCommon, args []*Term) *Term {
 	s := args[0]
 	sl, ok := types.Unalias(c.Args[0].Type()).Underlying().(*types.Slice)
 	if !ok {
+		return ex.freshOf(st, "append", c.Args[0].Type())
+	}
+	if s.sort != Sort("Slice") || (args[1].sort != Sort("Slice") && args[1].sort != SStr) {
+		ex.note("append involving a coin set used as a list: result unconstrained")
 		return ex.freshOf(st, "append", c.Args[0].Type())
 	}
 	es := ex.tm.SortOf(sl.Elem())
@@ -695,6 +709,9 @@ func (fr *Frame) modifiedInLoop(li *loopInfo) ([]string, bool) {
 					}
 				case *ssa.Go, *ssa.Send, *ssa.Select:
 					all = true
+					if debugOn {
+						fmt.Printf("DEBUG loop-frame: everything havocked because of %s in %s\n", in.String(), fn.Name())
+					}
 				case *ssa.Slice:
 					if pt, ok := types.Unalias(x.X.Type()).Underlying().(*types.Pointer); ok {
 						if at, ok := types.Unalias(pt.Elem()).Underlying().(*types.Array); ok {
@@ -704,6 +721,9 @@ func (fr *Frame) modifiedInLoop(li *loopInfo) ([]string, bool) {
 				case ssa.CallInstruction:
 					if _, isDefer := in.(*ssa.Defer); isDefer && blocks != nil {
 						all = true
+						if debugOn {
+							fmt.Printf("DEBUG loop-frame: everything havocked because of %s in %s\n", in.String(), fn.Name())
+						}
 						continue
 					}
 					cc := x.Common()
@@ -719,6 +739,9 @@ func (fr *Frame) modifiedInLoop(li *loopInfo) ([]string, bool) {
 							set[h], set[v], set[l] = true, true, true
 						case "clear":
 							all = true
+							if debugOn {
+								fmt.Printf("DEBUG loop-frame: everything havocked because of %s in %s\n", in.String(), fn.Name())
+							}
 						}
 						continue
 					}
@@ -746,11 +769,23 @@ func (fr *Frame) modifiedInLoop(li *loopInfo) ([]string, bool) {
 							continue
 						}
 						all = true
+						if debugOn {
+							fmt.Printf("DEBUG loop-frame: everything havocked because of %s in %s\n", in.String(), fn.Name())
+						}
 						continue
 					}
 					callee := cc.StaticCallee()
+					if callee == nil && isSdkMathAlias(cc.Value) {
+						continue
+					}
+					if callee == nil && fr.contract != nil && fr.contract.DynPure {
+						continue
+					}
 					if callee == nil {
 						all = true
+						if debugOn {
+							fmt.Printf("DEBUG loop-frame: everything havocked because of %s in %s\n", in.String(), fn.Name())
+						}
 						continue
 					}
 					name := callee.String()
@@ -791,6 +826,9 @@ func (fr *Frame) modifiedInLoop(li *loopInfo) ([]string, bool) {
 							continue
 						}
 						all = true
+						if debugOn {
+							fmt.Printf("DEBUG loop-frame: everything havocked because of %s in %s\n", in.String(), fn.Name())
+						}
 						continue
 					}
 					if len(callee.Blocks) > 0 && depth < ex.maxInline && ex.inlinable(callee, ct) {
@@ -798,6 +836,9 @@ func (fr *Frame) modifiedInLoop(li *loopInfo) ([]string, bool) {
 						continue
 					}
 					all = true
+					if debugOn {
+						fmt.Printf("DEBUG loop-frame: everything havocked because of %s in %s\n", in.String(), fn.Name())
+					}
 				}
 			}
 		}
@@ -944,6 +985,9 @@ func (fr *Frame) loopHeader(st *State, li *loopInfo, phis []*ssa.Phi, entryVals 
 			ex.assume(st, f.Ge(v, f.Int(-1)))
 		}
 	}
+	// 2b. 'loop <n> opaque x, y': forget what the named (loop-invariant) values were computed from; from here
+	// on only what the invariants say about them is known (sound: knowledge is only dropped)
+	fr.loopOpaque(st, li)
 	// 3. assume the invariant
 	for _, cl := range invs {
 		ctx := fr.evalCtx(st, li.header)
